@@ -18,6 +18,8 @@ import Lcapy.Proofs.LaplaceEntries
 import Lcapy.Proofs.LaplaceUndef
 import Lcapy.Proofs.LaplaceWindow
 import Lcapy.Proofs.LaplaceAnchor
+import Lcapy.Proofs.LaplaceIntegral
+import Lcapy.Proofs.LaplaceSemantics
 namespace Lcapy.C09
 open Lcapy.Laplace
 
@@ -169,6 +171,44 @@ theorem conv_exp_entry (env : Env K) (hE : IsExp env.E) (c a : K) (ha : env.s - 
     (hx : NonPole env.xsig.post env.s) :
     specValue env (.convExpX c a) = (lcapyTerm env (.convExpX c a)).2 := conv_exp_entry' env hE c a ha hx
 
+/-- `Derivative(x(a t + b), t, n)` — what the transform must be (x causal, delay −b/a ≥ 0): `c·sⁿ·X(s/a)/a·e^{s b/a}`
+    (derivative theorem after the similarity and shift theorems) -/
+theorem deriv_undef_at_spec (env : Env K) (hE : IsExp env.E) (c a b : K) (n : Nat) (ha : a ≠ 0) (hb : b ≤ 0)
+    (hx : NonPole env.xsig.post (env.s / a)) :
+    specValue env (.dundefAt c n a b)
+      = some (c * (Xof env (env.s / a) / a * (if b = 0 then 1 else env.E (env.s * b / a)) * pw env.s n)) :=
+  deriv_undef_at_spec' env hE c a b n ha hb hx
+
+/-- … `derivative_undef` computes it when the source applies `self.func` to the differentiated function (flag GENERATED from the
+    source text; finding C09-F24: the code wrote `X(s)` whatever the argument) … -/
+theorem deriv_undef_at_entry (env : Env K) (hE : IsExp env.E) (hflag : Gen.derivAppliesShift = true) (hz : env.zic = true)
+    (c a b : K) (n : Nat) (ha : a ≠ 0) (hb : b ≤ 0) (hx : NonPole env.xsig.post (env.s / a)) :
+    specValue env (.dundefAt c n a b) = (lcapyTerm env (.dundefAt c n a b)).2 :=
+  deriv_undef_at_entry' env hE hflag hz c a b n ha hb hx
+
+/-- … and in either form for the plain argument `x(t)` -/
+theorem deriv_undef_at_plain_entry (env : Env K) (hE : IsExp env.E) (hz : env.zic = true) (c : K) (n : Nat)
+    (hx : NonPole env.xsig.post env.s) :
+    specValue env (.dundefAt c n 1 0) = (lcapyTerm env (.dundefAt c n 1 0)).2 := deriv_undef_at_plain env hE hz c n hx
+
+/-- sifting: `c·x(t)·δ(a t + b)` with the impulse at `τ = −b/a ≥ 0`, `x` continuous there, transforms to `c·x(τ)·e^{−sτ}/a`;
+    an impulse before the origin contributes nothing -/
+theorem delta_undef_spec (env : Env K) (c a b : K) (h0 : 0 ≤ -(b / a)) (hcont : contAt env.xsig.post (-(b / a)) = true) :
+    specValue env (.deltaX c a b)
+      = some (c * evalAt env.E env.xsig.post (-(b / a)) * env.E (-(env.s * -(b / a))) / a) :=
+  delta_undef_spec' env c a b h0 hcont
+
+theorem delta_undef_before_origin_spec (env : Env K) (c a b : K) (h0 : ¬ 0 ≤ -(b / a)) :
+    specValue env (.deltaX c a b) = some 0 := delta_undef_before_origin env c a b h0
+
+/-- the `DiracDelta * x(t)` branch of `term` computes it when the source implements the sifting property (flag GENERATED;
+    finding C09-F25: the code returned the time function `x(t)`) -/
+theorem delta_undef_entry (env : Env K) (hflag : Gen.deltaUndefSifts = true) (c a b : K) (h0 : 0 ≤ -(b / a))
+    (hcont : contAt env.xsig.post (-(b / a)) = true) :
+    specValue env (.deltaX c a b) = (lcapyTerm env (.deltaX c a b)).2 := delta_undef_entry' env hflag c a b h0 hcont
+
+example : contAt [Term.ep (1 : ℚ) 0 (-3) 0] (1 / 2) = true := by norm_num [contAt]
+
 /-! #### time-reversed steps (windows) and the `clip_step` rewriting -/
 
 /-- Window: a signal switched off at `T`, `g(t)·u(t−τ)·u(T−t)` (the model's base `u(t−τ) − u(t−T)` multiplied by any
@@ -223,5 +263,99 @@ theorem anchor_real (c : ℝ) (k : ℕ) (p s : ℝ) (h : p < s) :
 theorem anchor_complex_k0 (p s : ℂ) (h : p.re < s.re) :
     ∫ t : ℝ in Set.Ioi (0:ℝ), Complex.exp (p * t) * Complex.exp (-(s * t)) = 1 / (s - p) :=
   Lcapy.Laplace.anchor_complex_k0 p s h
+
+/-- complex rate (sin/cos, damped sinusoids, complex exponentials), EVERY order `k`, on the half-plane `Re s > Re p`
+    (induction on `k`, integration by parts from `integral_exp_mul_complex_Ioi`) -/
+theorem anchor_complex (k : ℕ) (p s : ℂ) (h : p.re < s.re) :
+    ∫ t : ℝ in Set.Ioi (0:ℝ), (t : ℂ) ^ k * Complex.exp (p * t) * Complex.exp (-(s * t))
+      = (k.factorial : ℂ) / (s - p) ^ (k + 1) := Lcapy.Laplace.anchor_complex k p s h
+
+/-- one delayed basis term `c (t−d)^k/k! e^{p(t−d)} u(t−d)`, `d ≥ 0`: `x(t) e^{−st}` is integrable on `(0,∞)` and its integral is
+    the formal transform `c e^{−sd}/(s−p)^{k+1}` (the delay shifts the integral) -/
+theorem lt_term_is_integral (c : ℂ) (k : ℕ) (p d s : ℂ) (hd : d.im = 0) (hd0 : 0 ≤ d.re) (h : p.re < s.re) :
+    MeasureTheory.IntegrableOn (fun t : ℝ => (Term.ep c k p d).timeFn t * Complex.exp (-(s * t))) (Set.Ioi 0) ∧
+    ∫ t : ℝ in Set.Ioi (0:ℝ), (Term.ep c k p d).timeFn t * Complex.exp (-(s * t)) = (Term.ep c k p d).L Complex.exp s :=
+  Lcapy.Laplace.lt_term_is_integral c k p d s hd hd0 h
+
+/-- **the formal transform IS the defining integral on the whole exponential-polynomial class**: for every delta-free formal signal
+    with non-negative real delays (finite sums of `c (t−d)^k/k! e^{p(t−d)} u(t−d)`, `c`, `p` complex — polynomials, real and complex
+    exponentials, sin/cos/sinh/cosh, damped sinusoids and their delayed versions) and every `s` to the right of all its poles,
+    `x(t) e^{−st}` is integrable on `(0, ∞)` and `∫_0^∞ x(t) e^{−st} dt = L x (s)`  (`timeFn`: the signal as a function of real time,
+    same reading as `Term.at`). Deltas stay formal. -/
+theorem lt_is_integral (f : ExpPoly ℂ) (s : ℂ) (hnd : NoDelta f) (hd : RealDelays f) (hs : InROC f s) :
+    MeasureTheory.IntegrableOn (fun t : ℝ => timeFn f t * Complex.exp (-(s * t))) (Set.Ioi 0) ∧
+    ∫ t : ℝ in Set.Ioi (0:ℝ), timeFn f t * Complex.exp (-(s * t)) = L Complex.exp f s :=
+  Lcapy.Laplace.lt_is_integral f s hnd hd hs
+
+example : NoDelta [Term.ep 2 1 (-3 + 4 * Complex.I) 0, Term.ep 1 0 (-1) 1] ∧
+    RealDelays [Term.ep 2 1 (-3 + 4 * Complex.I) 0, Term.ep 1 0 (-1) 1] ∧
+    InROC [Term.ep 2 1 (-3 + 4 * Complex.I) 0, Term.ep 1 0 (-1) 1] 0 := by
+  refine ⟨?_, ?_, ?_⟩ <;> (intro t ht; simp at ht; rcases ht with rfl | rfl <;> simp [Term.delayOf])
+
+/-- the textbook pairs of the damped sinusoids, as instances of `lt_is_integral` -/
+theorem anchor_damped_sin (al w : ℝ) (s : ℂ) (h : -al < s.re) :
+    ∫ t : ℝ in Set.Ioi (0:ℝ), ((Real.exp (-al * t) * Real.sin (w * t) : ℝ) : ℂ) * Complex.exp (-(s * t))
+      = w / ((s + al) ^ 2 + w ^ 2) := Lcapy.Laplace.anchor_damped_sin al w s h
+
+theorem anchor_damped_cos (al w : ℝ) (s : ℂ) (h : -al < s.re) :
+    ∫ t : ℝ in Set.Ioi (0:ℝ), ((Real.exp (-al * t) * Real.cos (w * t) : ℝ) : ℂ) * Complex.exp (-(s * t))
+      = (s + al) / ((s + al) ^ 2 + w ^ 2) := Lcapy.Laplace.anchor_damped_cos al w s h
+
+/-! ### the meaning function `sem` is the pointwise product, and the code's formulas are integrals -/
+
+/-- every smooth factor of the raw-term language (`t^k`, `a t + b`, `e^{at}`, `sin/cos(ωt+φ)`, `sinh/cosh(at)`) acts on a delta-free
+    signal as multiplication by the function of real time it denotes (`atomFn`) — the operations `tmul`, `expWeight`, `smul`
+    with which `sem` builds signals mean what their names say -/
+theorem smooth_factor_pointwise (x : Atom ℂ) (f : ExpPoly ℂ) (hf : Regular f) :
+    Regular (applySmooth Complex.exp Complex.I f x) ∧
+    ∀ t, timeFn (applySmooth Complex.exp Complex.I f x) t = atomFn x t * timeFn f t :=
+  applySmooth_pointwise x f hf
+
+/-- the specification value of `c · Π gᵢ(t) · u(t−τ)`, `τ ≥ 0`, is its defining integral at every `s` right of all poles -/
+theorem smooth_product_is_integral (sm : List (Atom ℂ)) (c : ℂ) (tau : ℝ) (htau : 0 ≤ tau) (s : ℂ)
+    (hs : InROC (sm.foldl (applySmooth Complex.exp Complex.I) [Term.ep c 0 0 (tau : ℂ)]) s) :
+    ∫ t : ℝ in Set.Ioi (0:ℝ), ((sm.map (fun x => atomFn x t)).prod * (if tau ≤ t then c else 0)) * Complex.exp (-(s * t))
+      = L Complex.exp (sm.foldl (applySmooth Complex.exp Complex.I) [Term.ep c 0 0 (tau : ℂ)]) s :=
+  Lcapy.Laplace.smooth_product_is_integral sm c tau htau s hs
+
+example : InROC ([Atom.tpow 2, Atom.exp (-1)].foldl (applySmooth Complex.exp Complex.I) [Term.ep 3 0 0 ((1 : ℝ) : ℂ)]) 0 := by
+  intro x hx
+  simp [applySmooth, iter, tmul, Term.tmul, expWeight, Term.expWeight] at hx
+  rcases hx with rfl | rfl | rfl | rfl <;> simp
+
+/-- `sin_cos_entry` over ANY field with an imaginary unit (an ordered field has none: the version above is stated for the
+    driver's ordered stand-in only); the only fact about `≤` that is used is `0 ≤ 1` -/
+theorem sin_cos_entry_any_field {K : Type} [Field K] [LE K] [DecidableLE K] [DecidableEq K]
+    (env : Env K) (hE : IsExp env.E) (hJ : env.J * env.J = -1) (h01 : (0 : K) ≤ 1) (h20 : (2 : K) ≠ 0)
+    (c al w ph tau : K) (isCos : Bool) (h1 : env.s - al - env.J * w ≠ 0) (h2 : env.s - al + env.J * w ≠ 0) :
+    specValue env (.prod c [.exp al, .trig isCos w ph, .step 1 (-tau)]) = some (c * sinCosFormula env al isCos w ph tau) :=
+  sin_cos_entry_gen env hE hJ h01 h20 c al w ph tau isCos h1 h2
+
+/-- `sin_cos` with a constant in the exponent, `c·e^{αt+β}·sin/cos(ωt+φ)·u(t−τ)`: the code's extra factor `e^β`
+    (`alpha, beta = scale_shift(exparg, t)` … `if beta != 0: E = exp(beta) * E`) -/
+theorem sin_cos_entry_beta {K : Type} [Field K] [LE K] [DecidableLE K] [DecidableEq K]
+    (env : Env K) (hE : IsExp env.E) (hJ : env.J * env.J = -1) (h01 : (0 : K) ≤ 1) (h20 : (2 : K) ≠ 0)
+    (c al be w ph tau : K) (isCos : Bool) (h1 : env.s - al - env.J * w ≠ 0) (h2 : env.s - al + env.J * w ≠ 0) :
+    specValue env (.prod c [.expb al be, .trig isCos w ph, .step 1 (-tau)])
+      = some (c * (env.E be * sinCosFormula env al isCos w ph tau)) :=
+  sin_cos_entry_beta' env hE hJ h01 h20 c al be w ph tau isCos h1 h2
+
+-- non-vacuity: ℂ with the true exponential and `J = i`
+example : IsExp Complex.exp ∧ Complex.I * Complex.I = -1 ∧ (2 : ℂ) ≠ 0 := ⟨isExp_cexp, by simp, two_ne_zero⟩
+
+section
+-- `sinCosFormula` compares the delay with 0: on ℂ this is Mathlib's order (`z ≤ w ↔ z.re ≤ w.re ∧ z.im = w.im`), the real order on real delays
+open scoped ComplexOrder
+attribute [local instance] Classical.propDecidable
+
+/-- **the `sin_cos` fast path of the code is the defining integral**: the code's formula (`sinCosFormula`, the mirror of
+    `LaplaceTransformer.sin_cos` that the correspondence compares with the real code on every run) for `c·e^{αt}·sin/cos(ωt+φ)·u(t−τ)`
+    equals `∫_0^∞ c e^{αt} sin/cos(ωt+φ) u(t − max(τ,0)) e^{−st} dt` for all real `α, ω, φ, τ`, complex `c` and every `s` with `Re s > α` -/
+theorem sin_cos_is_integral (s c : ℂ) (al w ph tau : ℝ) (isCos : Bool) (h : al < s.re) :
+    c * sinCosFormula (cenv s) (al : ℂ) isCos (w : ℂ) (ph : ℂ) (tau : ℂ)
+      = ∫ t : ℝ in Set.Ioi (0:ℝ), (Complex.exp (al * t) * ((if isCos then Complex.cos (w * t + ph) else Complex.sin (w * t + ph))
+            * (if max tau 0 ≤ t then c else 0))) * Complex.exp (-(s * t)) :=
+  Lcapy.Laplace.sin_cos_is_integral s c al w ph tau isCos h
+end
 
 end Lcapy.C09
